@@ -72,6 +72,7 @@ func (h *harness) headstateFamily() {
 		fs := fullSpec{Chain: chainSpec{Seed: 77, NoHeight: true}, Contracts: 7}
 		d0, err := fs.build()
 		if err != nil {
+			h.res.Fatalf("fixture does not build: %v", err)
 			continue
 		}
 		addrs := sortedContractAddrs(fs.Chain.Seed, fs.Contracts)
@@ -94,6 +95,7 @@ func (h *harness) headstateFamily() {
 		fs := fullSpec{Chain: chainSpec{Seed: 21 + uint64(n), NoHeight: true}, Contracts: n}
 		d0, err := fs.build()
 		if err != nil {
+			h.res.Fatalf("fixture does not build: %v", err)
 			continue
 		}
 		pre0 := hsAbstract(d0, fs.Chain.Seed, n)
@@ -211,6 +213,8 @@ func (h *harness) headstateFamily() {
 				}
 				resume(oc.final, "after-read-fault", rp)
 			}
+		} else {
+			h.res.Fatalf("headstate read-fault family: the undisturbed run returned %s %s", base.ret, base.errText)
 		}
 		for i := 0; i < 3; i++ {
 			plan := btPlan{CancelAtGet: 1 + int64(h.r.Intn(3*n+2))}
@@ -256,6 +260,7 @@ func (h *harness) sdlFamily() {
 		fs := fullSpec{Chain: chainSpec{Seed: 31 + uint64(c.blocks*7+c.pruned), Counts: counts, Layout: strings.Repeat("-", c.blocks)}}
 		d0, err := fs.build()
 		if err != nil {
+			h.res.Fatalf("fixture does not build: %v", err)
 			continue
 		}
 		for b := 0; b < c.pruned && b < c.blocks; b++ { // a prefix pruned by the running pruner
@@ -387,6 +392,8 @@ func (h *harness) sdlFamily() {
 				}
 				resume(oc.final, st, "after-read-fault", rp)
 			}
+		} else if c.pruned < c.blocks {
+			h.res.Fatalf("statedifflength read-fault family: the undisturbed run returned %s %s", base.ret, base.errText)
 		}
 		// a stale checkpoint below the pruned prefix / above the height, and a malformed one
 		for _, next := range []uint64{1, uint64(c.pruned), uint64(c.blocks), uint64(c.blocks) + 5} {
